@@ -64,7 +64,7 @@ Proof. exact count_wrong_valid. Qed.
 Print Assumptions C01_missing_share_count_wrong_valid.
 
 Theorem C01_missing_share_count_sentinel : forall G w T xJ, prime (gq G) -> 2 ^ Z.of_nat w <= gq G ->
-  0 <= T < 2 ^ Z.of_nat w -> xJ mod gq G <> 0 ->
+  xJ mod gq G <> 0 ->
   Z.of_nat (length (filter (fun R => outcome_for G w T xJ R =? 2 ^ Z.of_nat w) (zseq (Z.to_nat (gq G)))))
   = gq G - 2 ^ Z.of_nat w.
 Proof. exact count_sentinel. Qed.
